@@ -275,7 +275,8 @@ def impl_init():
             hook["cb"] = (lambda: snap(False))
             try:
                 if (i - 1) in c["unreadable"]:
-                    db.load(os.path.join(work, "no-such-dir", "x.fp"))
+                    # a path that cannot be read: missing, EMPTY (an unset setting), a directory
+                    db.load([os.path.join(work, "no-such-dir", "x.fp"), "", work, os.path.join(work, "no-such-file-%d.fp" % os.getpid())][(i + len(lines)) % 4])
                 elif (i - 1) in c.get("default", []):
                     db.load()
                 else:
